@@ -238,14 +238,19 @@ template <> z_interval_t z_interval_t::AShr(const z_interval_t &x) const {
         return top();
       }
       // Some crazy linux drivers generate ashr instructions with
-      // huge shifts.  We limit the number of times the loop is run
-      // to avoid wasting too much time on it.
+      // huge shifts.
       if (k <= 128) {
-        z_number factor = 1;
-        for (int i = 0; k > i; i++) {
-          factor *= 2;
+        // An arithmetic shift right rounds towards minus infinity
+        // (division rounds towards zero) and it is monotone.
+        bound_t l = lb();
+        bound_t u = ub();
+        if (l.is_finite()) {
+          l = bound_t(*(l.number()) >> k);
         }
-        return (*this) / factor;
+        if (u.is_finite()) {
+          u = bound_t(*(u.number()) >> k);
+        }
+        return z_interval_t(l, u);
       }
     }
     return top();
